@@ -309,12 +309,12 @@ class HumdrumPitchExporter(PitchExporter):
         accidentals = ''.join([c for c in pitch.name if c in ['-', '+']])
         accidentals = accidentals.replace('+', '#')
         accidentals_output = len(accidentals) * accidentals[0] if len(accidentals) > 0 else ''
-        pitch.name = pitch.name.replace('+', '').replace('-', '')
+        name = pitch.name.replace('+', '').replace('-', '')
 
         if pitch.octave >= HumdrumPitchExporter.C4_OCATAVE:
-            return f"{pitch.name.lower() * (pitch.octave - HumdrumPitchExporter.C4_OCATAVE + 1)}{accidentals_output}"
+            return f"{name.lower() * (pitch.octave - HumdrumPitchExporter.C4_OCATAVE + 1)}{accidentals_output}"
         else:
-            return f"{pitch.name.upper() * (HumdrumPitchExporter.C3_OCATAVE - pitch.octave + 1)}{accidentals_output}"
+            return f"{name.upper() * (HumdrumPitchExporter.C3_OCATAVE - pitch.octave + 1)}{accidentals_output}"
 
 
 class AmericanPitchExporter(PitchExporter):
